@@ -42,10 +42,21 @@ impl SecondLevelHTLCOutput {
 //@end
 }
 
+#[verifier::external_body]
+pub fn vx_position_u32(v: &Vec<u32>, x: u32) -> (r: Option<usize>)
+    ensures v@.contains(x) ==> r.is_some() && r->Some_0 as int == first_pos(v@, x) && r->Some_0 < v@.len() && v@[r->Some_0 as int] == x,
+        !v@.contains(x) ==> r.is_none(),
+{ v.iter().position(|&y| y == x) }
+#[verifier::external_body]
+pub fn vx_vec_repeat_bool(b: bool, n: usize) -> (r: Vec<bool>) ensures r@.len() == n, forall|i: int| 0 <= i < n ==> r@[i] == b { vec![b; n] }
+
 impl ClosingOutpoints {
 
-//@fn vls-core/src/monitor.rs :: impl ClosingOutpoints :: new mode=trusted
+//@fn vls-core/src/monitor.rs :: impl ClosingOutpoints :: new props=C14 optclosures
     ensures co_abs(r) == co_new(txid, our_output_index, htlc_output_indexes@),
+//@sub /vec!\[false; htlc_output_indexes\.len\(\)\]/ => vx_vec_repeat_bool(false, htlc_output_indexes.len())
+//@proof before /^\s*ClosingOutpoints \{/
+        proof { assert(v@ =~= falses(htlc_output_indexes@.len())); assert(second_abs(Seq::<SecondLevelHTLCOutput>::empty()) =~= Seq::empty()); }
 //@end
 
 //@fn vls-core/src/monitor.rs :: impl ClosingOutpoints :: set_our_output_spent props=C14 noabort
@@ -53,11 +64,15 @@ impl ClosingOutpoints {
     ensures co_abs(*final(self)) == (CoAbs { our_output: Some((vout, spent)), ..co_abs(*old(self)) }),
 //@end
 
-//@fn vls-core/src/monitor.rs :: impl ClosingOutpoints :: set_htlc_output_spent mode=trusted
+//@fn vls-core/src/monitor.rs :: impl ClosingOutpoints :: set_htlc_output_spent props=C14 noabort
     requires old(self).htlc_outputs@.contains(vout), old(self).htlc_spents@.len() == old(self).htlc_outputs@.len(),
     ensures co_abs(*final(self)) == (CoAbs {
         htlc_spents: old(self).htlc_spents@.update(first_pos(old(self).htlc_outputs@, vout), spent), ..co_abs(*old(self)) }),
+// `iter().position(|&x| x == vout)`: index of the first element equal to vout (std semantics, stub in this unit)
+//@sub /self\.htlc_outputs\.iter\(\)\.position\(\|&x\| x == vout\)/ => vx_position_u32(&self.htlc_outputs, vout)
+//@sub /self\.htlc_spents\[i\] = spent;/ => self.htlc_spents.set(i, spent);
 //@end
+
 
 //@fn vls-core/src/monitor.rs :: impl ClosingOutpoints :: add_second_level_htlc_output props=C14
     ensures co_abs(*final(self)) == (CoAbs { second: co_abs(*old(self)).second.push((outpoint, false)), ..co_abs(*old(self)) }),
